@@ -177,7 +177,8 @@ def make_clock():
             self.ntimer = 0
             self.on_sched = None
             self.looper_calls = []
-            self.looper_delays = []
+            self.looper_delays = []   # every delay the LoopingCall asked the reactor for
+            self.looper_times = []    # (virtual time of the request, deadline)
             self.owner = None
 
         def callLater(self, delay, func, *a, **kw):
@@ -185,6 +186,7 @@ def make_clock():
             if isinstance(func, LoopingCall):
                 self.looper_calls.append(dc)
                 self.looper_delays.append(delay)
+                self.looper_times.append((self.rightNow, dc.getTime()))
             elif self.owner is not None and self.owner(func, a):
                 tid = self.ntimer
                 self.ntimer += 1
@@ -405,6 +407,9 @@ class ImplRun(object):
 
     def on_sched(self, tid, delay, kind, dc):
         k = delay_index(delay, self.cfg.get("retry_interval", 0.25), self.Producer.RETRY_INTERVAL_FACTOR)
+        if not self.Producer.RETRY_INTERVAL_FACTOR > 1:
+            # the factor is a parameter of the proof (C09_delay_grows needs F > 1): the code's own constant must satisfy it
+            self.problems.append("RETRY_INTERVAL_FACTOR = %r is not > 1: retry delays do not grow" % (self.Producer.RETRY_INTERVAL_FACTOR,))
         if k < 0:
             self.problems.append("retry delay %r (%s) is not init*F^k for any k" % (delay, float(delay).hex()))
         self.timer_kind[tid] = kind
